@@ -9,7 +9,7 @@
    on who receives it.  [cfg0 lim pas] is the configuration without a chosencases filter
    (the filter is property C14).  [step_const] = 4. *)
 From Coq Require Import List Arith Bool NArith.
-From PV Require Import Model.Provider Model.ProviderFile Model.ProviderScan Proofs.ProviderProofs Proofs.ProviderFileProofs Proofs.ProviderScanProofs.
+From PV Require Import Model.Provider Model.ProviderFile Model.ProviderScan Model.ProviderFrame Proofs.ProviderProofs Proofs.ProviderFileProofs Proofs.ProviderScanProofs Proofs.ProviderFrameProofs.
 Import ListNotations.
 
 (* Exactly min of the non-zero bounds among limit and passes*n items are delivered, and they
@@ -209,3 +209,49 @@ Example C08_size_examples :
   /\ out (run_sz KGrpcJson 0%N (cfg0 0 3) es szs None 100) = Failed EScan
   /\ ids (delivered (run_sz KGrpcJson 0%N (cfg0 0 3) es szs None 100)) = [0].
 Proof. vm_compute. repeat split; reflexivity. Qed.
+
+(* ---- the frame of Run around the loop (Model/ProviderFrame.v) -----------------------------------
+
+   Acquire is a bare receive from the sink: only the close of the sink releases a waiting instance,
+   and the close is a deferred call — it runs only if Run returns after the `defer` statement.
+   [run_framed k opens] = the statements of Run in front of the loop, in source order
+   ([prologue_of k]), then the loop [run k]; "sink closed" is computed from where Run returned.
+   [cancel = Some 0]: the context is already done when Run starts. *)
+
+(* EVERY return of Run closes the sink: every kind, every configuration, every cancellation point
+   — before Run started included —, every fuel, whether the ammo source opens or not. *)
+Theorem C08_every_return_closes_sink : forall (k : pkind) (opens : bool) cf es cancel fuel,
+  let r := run_framed k opens cf es cancel fuel in
+  out r <> OutOfFuel -> closed r = true /\ acquire_after r = AcqEndOfAmmo.
+Proof. exact c08_every_return_closes. Qed.
+Print Assumptions C08_every_return_closes_sink.
+
+(* With a source that opens the frame adds nothing: Run IS the loop the theorems above speak about. *)
+Theorem C08_frame_adds_nothing : forall (k : pkind) cf es cancel fuel,
+  run_framed k true cf es cancel fuel = run k cf es cancel fuel.
+Proof. exact run_framed_is_run. Qed.
+Print Assumptions C08_frame_adds_nothing.
+
+(* The order of the statements is what does it: in ANY Run whose context test stands above the
+   `defer` of the close, a run whose context is already done on entry returns with the sink open
+   and every waiting instance stays blocked — whatever the loop is. *)
+Theorem C08_ctx_check_above_defer_blocks : forall ps1 ps2 opens loop,
+  (forall p, In p ps1 -> p = PPrepare) ->
+  let r := frame_run (ps1 ++ PCtxCheck :: ps2) opens (Some 0) loop in
+  out r = Failed ECtx /\ closed r = false /\ acquire_after r = AcqBlocked.
+Proof. exact ctx_check_above_defer_blocks. Qed.
+Print Assumptions C08_ctx_check_above_defer_blocks.
+
+(* Non-vacuity: the scenario provider cancelled before Run starts returns context.Canceled with
+   the sink closed; with the context test moved above the defer the sink stays open; grpc/json
+   whose file does not open fails with the sink closed. *)
+Example C08_frame_examples :
+  let e i := {| e_tag := i; e_id := i |} in
+  let r := run_framed KScenario true (cfg0 3 0) [e 0; e 1] (Some 0) 100 in
+  out r = Failed ECtx /\ closed r = true /\ delivered r = []
+  /\ closed (frame_run [PPrepare; PCtxCheck; PDeferCloseSink] true (Some 0)
+               (run KScenario (cfg0 3 0) [e 0; e 1] (Some 0) 100)) = false
+  /\ out (run_framed KGrpcJson false (cfg0 3 0) [e 0] None 100) = Failed EOpen
+  /\ closed (run_framed KGrpcJson false (cfg0 3 0) [e 0] None 100) = true
+  /\ ids (delivered (run_framed KDecode true (cfg0 3 0) [e 0; e 1] None 100)) = [0; 1; 0].
+Proof. repeat split; reflexivity. Qed.
